@@ -97,8 +97,13 @@ class Node(object):
         if children:
             node = cls.get_node_instance(id)
             descendants = list(node.children)
+            visited = {node}
             while descendants:
                 descendant = descendants.pop()
+                if descendant in visited:
+                    # Malformed (cyclic) structure: do not walk it forever
+                    continue
+                visited.add(descendant)
                 # A descendant may already have been removed on its own
                 Node.store.pop(descendant.id, None)
                 descendants.extend(descendant.children)
@@ -121,8 +126,12 @@ class Node(object):
         """
         if children:
             descendants = list(node.children)
+            visited = {node}
             while descendants:
                 descendant = descendants.pop()
+                if descendant in visited:
+                    continue
+                visited.add(descendant)
                 Node.store.pop(descendant.id, None)
                 descendants.extend(descendant.children)
         Node.store.pop(node.id, None)
